@@ -127,6 +127,16 @@ CHECKS.update({
    technique='Coq proof over hand-written graph-construction model; replayed vm_compute correspondence + proved-sound validator on implementation output',
    ref='DESIGN.md section 7, C16'),
 })
+CHECKS.update({
+ 'C11': dict(
+   text='Machine-checked proof (Coq) about definitions GENERATED from select_copula / _compute_empirical / _compute_tail / _compute_candidates and proved equal to the executable SelectCopula model: the result is one of at most three '
+        'candidates, each carrying the shared Kendall tau and its family calibration (re-using the generated compute_theta of C10), Clayton/Gumbel present iff admissible, non-positive tau gives Frank, first-maximum argmax over rank scores, '
+        'the z_right[k] indexing is always defined, the result is a function of X. Tie: generation + bridges + vm_compute correspondence (real data with captured tau/Frank theta/diagonal CDF values; substituted-oracle runs of the full pipeline). '
+        'PARTIAL: recovery of the generating family (>= 70% of seeds) is statistical and not decided (report-only table in the thorough tier).',
+   note=TB + 'kendalltau, least_squares and the candidates cumulative_distribution values are oracles (captured); full-grid evaluation of the model in Q is infeasible, so the pipeline is checked piecewise on real data and as a whole on a coarse dyadic grid.',
+   technique='Coq proof over AST-generated selection pipeline; piecewise vm_compute correspondence',
+   ref='DESIGN.md section 7, C11'),
+})
 NOT_YET = {}
 def main():
     props = [json.loads(l) for l in open(os.path.join(V, 'properties.jsonl'))]
